@@ -1,11 +1,14 @@
 import UpfVerif.Driver.Gtpu
+import UpfVerif.Driver.Flags
 open UpfVerif UpfVerif.Driver
 
 /-- stateless evaluators, by function name -/
 def evalT (fn : String) (args : List String) (impl : String) : Option Verdict :=
   match fn with
   | "gtpu.encode" => evalGtpu args impl
-  | _ => none
+  | _ =>
+    if fn.startsWith "flags." then evalFlags fn args impl
+    else none
 
 structure Counters where
   lines : Nat := 0
